@@ -1,22 +1,22 @@
 CONSTANTS
-  Variant = "ll"
+  Variant = "fmp4"
   TrackKinds <- TK_V
   SegCount = 3
   SegMin = 2
   PartMin = 1
-  MaxSize = 4
-  Deltas <- D2
-  VKinds <- VK2
+  MaxSize = 1000
+  Deltas <- D12
+  VKinds <- VK3
   AudioDur = 1
-  Sizes <- S12
-  MaxWrites = 8
+  Sizes <- S1
+  MaxWrites = 7
   MaxAU = 1
   StartDts = 0
   MinAUc = 2
   Emit = FALSE
   ConstSd = 0
   NGaps = 2
-  WeakVariant = ""
+  WeakVariant = "keepOneMore"
 INIT Init
 NEXT Next
 INVARIANTS C01 C02 C03 C04 C18 WindowBounded IdsConsistent
